@@ -67,6 +67,9 @@ def candidates(rng, text, between_free):
     add("spelling", r"\bLIMIT (\d+), ?(\d+)", lambda m: "LIMIT %s OFFSET %s" % (m.group(2), m.group(1)), re.I)
     add("noise-words", r" AS (al)\b", lambda m: " al")
     add("noise-words", r" (al2)\b", lambda m: " AS al2")
+    # two rewrites at one position: the alias without AS *and* back-quoted, with AS and back-quoted
+    add("noise-words+quoting", r" AS (al)\b", lambda m: " `al`")
+    add("noise-words+quoting", r" (al2)\b", lambda m: " AS `al2`")
     add("noise-words", r" ASC\b", lambda m: "", re.I)
     add("noise-words", r"\bINSERT (INTO|OVERWRITE) TABLE ", lambda m: "INSERT %s " % m.group(1), re.I)
     add("noise-words", r"\bINSERT (INTO|OVERWRITE) (?!TABLE)", lambda m: "INSERT %s TABLE " % m.group(1), re.I)
@@ -75,16 +78,12 @@ def candidates(rng, text, between_free):
     add("quoting", r"(?<=\.)(" + plain + r")(?![A-Za-z0-9_`'(.])", lambda m: "`" + m.group(1) + "`")
     add("parentheses", r"(?<=[-+*/=<>] )(" + plain + r"|\d+)(?= [-+*/=<>]|,| FROM| WHERE| AND| OR| THEN| ELSE| END)", lambda m: "(" + m.group(1) + ")")
     add("layout", r" ", lambda m: rng.choice(["  ", "\n", "\t", " /* c */ ", "\r\n", " -- x\n", "\u3000", " # y\n", " /* -- */ ", "\n\n"]))
-    # drop overlapping edits
-    eds.sort(key=lambda e: (e[1], e[2]))
-    out, last = [], -1
+    # drop overlapping edits: in random order, so that an edit that starts with a blank is not always beaten by the layout edit of that blank
+    res = []
     for e in rng.shuffle(eds):
-        out.append(e)
-    out.sort(key=lambda e: (e[1], e[2]))
-    res, last = [], -1
-    for e in out:
-        if e[1] >= last:
-            res.append(e); last = e[2]
+        if all(e[2] <= k[1] or e[1] >= k[2] for k in res):
+            res.append(e)
+    res.sort(key=lambda e: (e[1], e[2]))
     return res
 
 
